@@ -2,7 +2,7 @@ import RgVerif.Lemmas.GitBlank
 import RgVerif.Lemmas.GlobDocClass
 /-
 Bracket classes in gitignore lines: git's `wildmatch` reads a class exactly as `parse_class` + the regex class
-do — provided the class does not admit `/` (where ripgrep really deviates: recorded finding) and, under
+do — provided the class does not accept `/` (where ripgrep really deviates: recorded finding) and, under
 case-insensitive matching, lists no upper-case letter singly (git does not fold those).
 -/
 namespace RgVerif.Glob
@@ -260,4 +260,527 @@ theorem cls_mem_eq (ci pn : Bool) (s : ClsSpec) (hw : s.wf = true)
   simp only [hci]
   rw [doc_pos_eq, git_clsHas_eq, s.gitItems_eq, s.ranges_eq, items_test_eq ci s.all hle hnu b]
 
+/-! ### `wildmatch` through a class -/
+
+theorem text_head_neg (s : ClsSpec) (hw : s.wf = true) (R : List Nat) :
+    ((s.text ++ R).head? == some 33 || (s.text ++ R).head? == some 94) = s.isNeg := by
+  have h := classNeg_spec s hw R
+  obtain ⟨neg, first, items, trail⟩ := s
+  simp only [ClsSpec.wf, Bool.and_eq_true, Bool.or_eq_true, beq_iff_eq] at hw
+  obtain ⟨⟨⟨⟨⟨hneg, hfirst⟩, _⟩, _⟩, _⟩, hlook⟩ := hw
+  simp only [ClsSpec.isNeg, ClsSpec.text]
+  rcases hneg with (rfl | rfl) | rfl
+  · rcases hfirst with (rfl | rfl) | rfl
+    · simp only [Option.isSome_none, Bool.false_eq_true, false_or] at hlook
+      cases items with
+      | nil => simp at hlook
+      | cons it items' =>
+        cases it <;> simp only [Bool.and_eq_true, bne_iff_ne, ne_eq] at hlook <;>
+          simp [itemsText, CItem.text, hlook.1, hlook.2]
+    · simp
+    · simp
+  · simp
+  · simp
+
+theorem wm_class (ci pn po : Bool) (s : ClsSpec) (hw : s.wf = true) (hnz : s.nz = true) (R : List Nat)
+    (t : Bytes) :
+    GitSpec.wm ci pn po (91 :: (s.text ++ R)) t =
+      match t with
+      | [] => false
+      | b :: t' => (GitSpec.clsHas ci s.gitItems (if ci then GitSpec.toLower b else b) != s.isNeg) &&
+          !(pn && b == 47) && GitSpec.wm ci pn false R t' := by
+  have hcls : GitSpec.clsItems (if s.isNeg then (s.text ++ R).drop 1 else s.text ++ R) true 0 [] =
+      some (s.gitItems, R) := by
+    rw [← git_clsItems_body s hw hnz R, ClsSpec.text_eq]
+    cases hn : s.neg <;> simp [ClsSpec.isNeg, hn]
+  have hdrop : (s.text ++ R).drop ((s.text ++ R).length - R.length) = R := by
+    have : (s.text ++ R).length - R.length = s.text.length := by simp
+    rw [this]; simp
+  rw [GitSpec.wm.eq_def]
+  simp only [Nat.reduceBEq, Bool.false_eq_true, ↓reduceIte, BEq.rfl, text_head_neg s hw R, hcls, hdrop]
+  cases t <;> rfl
+
+/-! ### `wildmatch` on runs and classes -/
+
+/-- what the git comparison needs of a piece: under case folding no escapes in runs and no single upper-case
+letters in classes; a class lists no range starting at NUL and does not accept `/` -/
+def Piece.gitOk (ci : Bool) : Piece → Bool
+  | .run g => !ci || !g.contains 92
+  | .cls s => s.nz && (!ci || s.items.all CItem.noUpper) && !(clsHas (wmOpts ci true) s.isNeg s.ranges 47)
+
+theorem poIndep_after_run (ci pn : Bool) (g : List Nat) (rest : List Piece)
+    (hok : piecesOk true (.run g :: rest) = true) (hg : rest.all (Piece.gitOk ci) = true) :
+    PoIndep ci pn (piecesText rest) := by
+  cases rest with
+  | nil => exact poIndep_nil ci pn
+  | cons q rest' =>
+    cases q with
+    | run g' => simp [piecesOk] at hok
+    | cls s =>
+      simp only [piecesOk, Bool.and_eq_true] at hok
+      simp only [List.all_cons, Piece.gitOk, Bool.and_eq_true] at hg
+      intro po po' t
+      rw [piecesText_cons]
+      simp only [Piece.text, List.cons_append]
+      rw [wm_class ci pn po s hok.1.2 hg.1.1.1, wm_class ci pn po' s hok.1.2 hg.1.1.1]
+
+theorem wm_pieces (ci pn : Bool) (ps : List Piece) (hok : piecesOk true ps = true)
+    (hg : ps.all (Piece.gitOk ci) = true) (po : Bool) (t : Bytes) :
+    GitSpec.wm ci pn po (piecesText ps) t =
+      atomsMatch (wmOpts ci pn) ((piecesToks true ps).map trAtom) t := by
+  induction ps generalizing po t with
+  | nil => simp [piecesText, piecesToks, wm_nil, atomsMatch]
+  | cons p rest ih =>
+    have hrest := piecesOk_tail true p rest hok
+    simp only [List.all_cons, Bool.and_eq_true] at hg
+    have ih' := fun po t => ih hrest hg.2 po t
+    rw [piecesText_cons, piecesToks_cons, List.map_append]
+    cases p with
+    | run g =>
+      simp only [Piece.text, Piece.toks]
+      have hci : ci = true → 92 ∉ g := by
+        intro h hm
+        have := hg.1
+        simp [Piece.gitOk, h, hm] at this
+      rw [wm_simple_pre ci pn g (piecesText rest) (piecesOk_run true g rest hok) hci
+        (piecesText_head true g rest hok) (poIndep_after_run ci pn g rest hok hg.2) po t,
+        atomsMatch_append]
+      congr 1
+      funext r
+      exact ih' true r
+    | cls s =>
+      have hw : s.wf = true := by simp only [piecesOk, Bool.and_eq_true] at hok; exact hok.1
+      have hgs := hg.1
+      simp only [Piece.gitOk, Bool.and_eq_true, Bool.not_eq_eq_eq_not, Bool.not_true] at hgs
+      simp only [Piece.text, Piece.toks, List.cons_append, List.map_cons, List.map_nil, trAtom,
+        List.nil_append]
+      rw [wm_class ci pn po s hw hgs.1.1]
+      cases t with
+      | nil => simp [atomsMatch]
+      | cons b t' =>
+        simp only [atomsMatch]
+        rw [cls_mem_eq ci pn s hw (fun h => by simpa [h] using hgs.1.2) b, ih' false t']
+        by_cases hb : b = 47
+        · subst hb
+          have h47 : clsHas (wmOpts ci pn) s.isNeg s.ranges 47 = false := hgs.2
+          simp [h47]
+        · have : (b == 47) = false := by simpa using hb
+          simp [this]
+
 end RgVerif.Glob
+
+namespace RgVerif.Gitignore
+open RgVerif RgVerif.Glob RgVerif.GlobDoc
+
+/-! ### gitignore lines whose core is made of wildcard runs and bracket classes -/
+
+/-- the conditions on such a core; the `**` bookkeeping of `add_line` (`actual`) is part of the guard -/
+structure ClassCoreOK (ci abs : Bool) (ps : List Piece) : Prop where
+  ok : piecesOk true ps = true
+  git : ps.all (Piece.gitOk ci) = true
+  head : ∃ c0 tl, piecesText ps = c0 :: tl ∧ c0 ≠ 92 ∧ c0 ≠ 33 ∧ c0 ≠ 47 ∧ c0 ≠ 35
+  last : ∃ cl, (piecesText ps).getLast? = some cl ∧ cl ≠ 47 ∧ cl ≠ 92 ∧ cl ≠ 32 ∧ isWs cl = false
+  actual : actualOf abs (piecesText ps) =
+    if !abs && !(piecesText ps).contains 47 then [42, 42, 47] ++ piecesText ps else piecesText ps
+  dpos : GitSpec.okDstarPos (piecesText ps) = true
+
+def okClassCore (ci abs : Bool) (ps : List Piece) : Bool :=
+  piecesOk true ps && ps.all (Piece.gitOk ci) &&
+  (match (piecesText ps).head? with
+   | some c0 => c0 != 92 && c0 != 33 && c0 != 47 && c0 != 35
+   | none => false) &&
+  (match (piecesText ps).getLast? with
+   | some cl => cl != 47 && cl != 92 && cl != 32 && !isWs cl
+   | none => false) &&
+  GitSpec.okDstarPos (piecesText ps) &&
+  (actualOf abs (piecesText ps) ==
+    if !abs && !(piecesText ps).contains 47 then [42, 42, 47] ++ piecesText ps else piecesText ps)
+
+theorem classCoreOK_of {ci abs : Bool} {ps : List Piece} (h : okClassCore ci abs ps = true) :
+    ClassCoreOK ci abs ps := by
+  unfold okClassCore at h
+  obtain ⟨h, h5⟩ := (Bool.and_eq_true _ _).mp h
+  have h5 := eq_of_beq h5
+  simp only [Bool.and_eq_true] at h
+  obtain ⟨⟨⟨⟨h1, h2⟩, h3⟩, h4⟩, h6⟩ := h
+  refine ⟨h1, h2, ?_, ?_, h5, h6⟩
+  · cases hc : piecesText ps with
+    | nil => simp [hc] at h3
+    | cons c0 tl =>
+      simp only [hc, List.head?_cons, Bool.and_eq_true, bne_iff_ne, ne_eq] at h3
+      exact ⟨c0, tl, rfl, h3.1.1.1, h3.1.1.2, h3.1.2, h3.2⟩
+  · cases hl : (piecesText ps).getLast? with
+    | none => simp [hl] at h4
+    | some cl =>
+      simp only [hl, Bool.and_eq_true, bne_iff_ne, ne_eq, Bool.not_eq_eq_eq_not, Bool.not_true] at h4
+      exact ⟨cl, rfl, h4.1.1.1, h4.1.1.2, h4.1.2, h4.2⟩
+
+theorem parse_pieces (o : Opts) (ps : List Piece) (hok : piecesOk o.be ps = true) :
+    parse o (piecesText ps) = .ok ((piecesToks o.be ps).map Token.s) := by
+  unfold parse
+  rw [parseLoop_pieces o ps hok _ _ rfl (by omega)]
+  simp [PState.depth]
+
+theorem parse_dstar_pieces (o : Opts) (ps : List Piece) (hok : piecesOk o.be ps = true) :
+    parse o ([42, 42, 47] ++ piecesText ps) = .ok (.s .recPrefix :: (piecesToks o.be ps).map Token.s) := by
+  unfold parse
+  simp only [List.cons_append, List.nil_append, List.length_cons]
+  unfold parseLoop
+  simp only [Nat.reduceBEq, Bool.false_eq_true, ↓reduceIte, BEq.rfl]
+  unfold parseStar
+  simp only [PState.haveTokens, List.isEmpty_nil, Bool.not_true, Bool.not_false, ↓reduceIte, isSep,
+    BEq.rfl]
+  rw [parseLoop_pieces o ps hok _ _ (by simp [PState.push]) (by omega)]
+  simp [PState.depth, PState.push]
+
+/-- ripgrep's glob for such a line -/
+def rgGlobC (ci neg abs dir : Bool) (ps : List Piece) : GiGlob :=
+  let single := !abs && !(piecesText ps).contains 47
+  { original := lineOf neg abs dir (piecesText ps),
+    actual := if single then [42, 42, 47] ++ piecesText ps else piecesText ps,
+    isWhitelist := neg, isOnlyDir := dir,
+    glob := { opts := giOpts ci,
+              tokens := if single then .s .recPrefix :: (piecesToks true ps).map Token.s
+                        else (piecesToks true ps).map Token.s } }
+
+theorem addLine_lineOfC (ci neg abs dir : Bool) (ps : List Piece) (h : ClassCoreOK ci abs ps) :
+    addLine ci (lineOf neg abs dir (piecesText ps)) = .glob (rgGlobC ci neg abs dir ps) := by
+  obtain ⟨c0, tl, hcore, h92, h33, h47, h35⟩ := h.head
+  obtain ⟨cl, hlast, hl47, hl92, hl32, hlws⟩ := h.last
+  unfold addLine
+  rw [lineOf_startsWith35 neg abs dir hcore h35]
+  simp only [Bool.false_eq_true, ↓reduceIte]
+  rw [lineOf_trim neg abs dir hlast hlws hl32, lineOf_ne_nil neg abs dir hcore]
+  simp only [Bool.false_eq_true, ↓reduceIte]
+  rw [lineOf_splitPrefix neg abs dir hcore ⟨h92, h33, h47⟩]
+  have hne2 : (piecesText ps ++ (if dir then [47] else [])).isEmpty = false := by
+    rw [hcore]; simp
+  simp only [hne2, Bool.false_eq_true, ↓reduceIte]
+  rw [splitDirSlash_core dir hlast ⟨hl47, hl92⟩]
+  simp only
+  have hne3 : (piecesText ps).isEmpty = false := by rw [hcore]; simp
+  simp only [hne3, Bool.and_false, Bool.false_eq_true, ↓reduceIte]
+  rw [h.actual]
+  unfold rgGlobC
+  cases hs : (!abs && !(piecesText ps).contains 47)
+  · simp only [Bool.false_eq_true, ↓reduceIte]
+    rw [parse_pieces (giOpts ci) ps h.ok]
+    rfl
+  · simp only [↓reduceIte]
+    rw [parse_dstar_pieces (giOpts ci) ps h.ok]
+    rfl
+
+/-- git's `parse_path_pattern` on a line around any core with harmless first and last characters -/
+theorem parsePat_lineOf' (neg abs dir : Bool) (core : List Nat)
+    (hhead : ∃ c0 tl, core = c0 :: tl ∧ c0 ≠ 92 ∧ c0 ≠ 33 ∧ c0 ≠ 47 ∧ c0 ≠ 35)
+    (hlast : ∃ cl, core.getLast? = some cl ∧ cl ≠ 47 ∧ cl ≠ 92 ∧ cl ≠ 32 ∧ isWs cl = false) :
+    GitSpec.parsePat (lineOf neg abs dir core) =
+      some { negative := neg, mustBeDir := dir, noDir := !abs && !core.contains 47, text := core } := by
+  obtain ⟨c0, tl, hcore, h92, h33, h47, h35⟩ := hhead
+  obtain ⟨cl, hlast, hl47, hl92, hl32, hlws⟩ := hlast
+  have hl := lineOf_getLast (core := core) neg abs dir hlast
+  have hne : lineOf neg abs dir core ≠ [] := by
+    intro hn; have := lineOf_ne_nil (core := core) neg abs dir hcore; simp [hn] at this
+  have htrim : GitSpec.trimSpaces (lineOf neg abs dir core) = lineOf neg abs dir core := by
+    unfold GitSpec.trimSpaces
+    rw [trimSpaces_go_last _ _ _ hne (by rw [hl]; cases dir <;> simp [hl32])]; rfl
+  have hhead : ((lineOf neg abs dir core).isEmpty || (lineOf neg abs dir core).head? == some 35) = false := by
+    rw [hcore]
+    cases neg <;> cases abs <;> simp [lineOf, h35]
+  unfold GitSpec.parsePat
+  rw [hhead, htrim]
+  simp only [Bool.false_eq_true, ↓reduceIte]
+  rw [stripNeg_lineOf neg abs dir hcore h33]
+  simp only
+  rw [stripDir_lineOf abs dir hlast hl47]
+  simp only
+  rw [contains_lineOf abs _ rfl, stripLead_lineOf abs hcore h47]
+  simp
+
+/-! ### matching -/
+
+def slashFreeTokC (ci : Bool) : Tok → Bool
+  | .cls neg rs => !(clsHas (wmOpts ci true) neg rs 47)
+  | t => slashFreeTok t
+
+def simpleTokC : Tok → Bool
+  | .cls _ _ => true
+  | t => simpleTok t
+
+theorem atomsMatch_slashfreeC (ci : Bool) (ts : List Tok) (hts : ∀ t ∈ ts, slashFreeTokC ci t = true) (t : Bytes)
+    (h : atomsMatch (wmOpts ci true) (ts.map trAtom) t = true) : 47 ∉ t := by
+  induction ts generalizing t with
+  | nil => simp [atomsMatch] at h; simp [h]
+  | cons tk ts ih =>
+    have ih' := fun t => ih (fun x hx => hts x (by simp [hx])) t
+    have htk := hts tk (by simp)
+    cases tk with
+    | cls n rs =>
+      simp only [slashFreeTokC, Bool.not_eq_eq_eq_not, Bool.not_true] at htk
+      cases t with
+      | nil => simp
+      | cons b t' =>
+        simp only [List.map_cons, trAtom, atomsMatch, Bool.and_eq_true] at h
+        have hb : b ≠ 47 := by
+          intro hb; subst hb
+          rw [htk] at h; exact absurd h.1 (by simp)
+        simp only [List.mem_cons, not_or]
+        exact ⟨fun h' => hb h'.symm, ih' t' h.2⟩
+    | lit c =>
+      simp only [slashFreeTokC, slashFreeTok, Bool.and_eq_true, decide_eq_true_eq, bne_iff_ne, ne_eq] at htk
+      cases t with
+      | nil => simp
+      | cons b t' =>
+        simp only [List.map_cons, trAtom, atomsMatch, Bool.and_eq_true] at h
+        have hb : b ≠ 47 := by
+          intro hb; subst hb
+          have := h.1
+          unfold sameChar wmOpts at this
+          cases ci
+          · simp at this; exact htk.2 this
+          · simp only [↓reduceIte, beq_iff_eq] at this
+            exact htk.2 (lowerA_47 (by rw [this]; rfl))
+        simp only [List.mem_cons, not_or]
+        exact ⟨fun h' => hb h'.symm, ih' t' h.2⟩
+    | any =>
+      cases t with
+      | nil => simp
+      | cons b t' =>
+        simp only [List.map_cons, trAtom, atomsMatch, Bool.and_eq_true, wild, wmOpts, Bool.true_and,
+          Bool.not_eq_eq_eq_not, Bool.not_true, beq_eq_false_iff_ne, ne_eq] at h
+        simp only [List.mem_cons, not_or]
+        exact ⟨fun h' => h.1 h'.symm, ih' t' h.2⟩
+    | star =>
+      simp only [List.map_cons, trAtom, atomsMatch, List.any_eq_true, Bool.and_eq_true, Prod.exists] at h
+      obtain ⟨x, r, hm, hx, hr⟩ := h
+      rw [mem_splits hm]
+      simp only [List.mem_append, not_or]
+      refine ⟨?_, ih' r hr⟩
+      intro h47
+      have := List.all_eq_true.mp hx 47 h47
+      simp [wild, wmOpts] at this
+    | recPrefix => simp [slashFreeTokC, slashFreeTok] at htk
+    | recSuffix => simp [slashFreeTokC, slashFreeTok] at htk
+    | recZero => simp [slashFreeTokC, slashFreeTok] at htk
+
+theorem atomsMatch_ls_irrelevantC (ci : Bool) (ts : List Tok) (hts : ∀ t ∈ ts, simpleTokC t = true) (t : Bytes)
+    (ht : 47 ∉ t) :
+    atomsMatch (wmOpts ci false) (ts.map trAtom) t = atomsMatch (wmOpts ci true) (ts.map trAtom) t := by
+  induction ts generalizing t with
+  | nil => rfl
+  | cons tk ts ih =>
+    have ih' := fun t ht => ih (fun x hx => hts x (by simp [hx])) t ht
+    have htk := hts tk (by simp)
+    cases tk with
+    | cls n rs =>
+      cases t with
+      | nil => rfl
+      | cons b t' =>
+        simp only [List.mem_cons, not_or] at ht
+        simp only [List.map_cons, trAtom, atomsMatch, ih' t' ht.2]
+        rfl
+    | lit c =>
+      cases t with
+      | nil => rfl
+      | cons b t' =>
+        simp only [List.mem_cons, not_or] at ht
+        simp only [List.map_cons, trAtom, atomsMatch, ih' t' ht.2]
+        rfl
+    | any =>
+      cases t with
+      | nil => rfl
+      | cons b t' =>
+        simp only [List.mem_cons, not_or] at ht
+        have hb : (b == 47) = false := by simpa using (fun h => ht.1 h.symm : b ≠ 47)
+        simp only [List.map_cons, trAtom, atomsMatch, ih' t' ht.2]
+        simp [wild, wmOpts, hb]
+    | star =>
+      simp only [List.map_cons, trAtom, atomsMatch]
+      apply any_congr_mem
+      rintro ⟨x, r⟩ hm
+      have hsplit := mem_splits hm
+      have hx : 47 ∉ x := fun h => ht (by rw [hsplit]; simp [h])
+      have hr : 47 ∉ r := fun h => ht (by rw [hsplit]; simp [h])
+      simp only [ih' r hr]
+      congr 1
+      have h1 : x.all (wild (wmOpts ci false)) = true := by simp [wild, wmOpts]
+      have h2 : x.all (wild (wmOpts ci true)) = true := by
+        simp only [List.all_eq_true]
+        intro b hb
+        have : b ≠ 47 := fun h => hx (h ▸ hb)
+        simp [wild, wmOpts, this]
+      rw [h1, h2]
+    | recPrefix => simp [simpleTokC, simpleTok] at htk
+    | recSuffix => simp [simpleTokC, simpleTok] at htk
+    | recZero => simp [simpleTokC, simpleTok] at htk
+
+theorem piecesOk_mem (ps : List Piece) (hok : piecesOk true ps = true) :
+    ∀ p ∈ ps, match p with
+      | .run g => simpleGlob true g = true
+      | .cls s => s.wf = true := by
+  induction ps with
+  | nil => simp
+  | cons q rest ih =>
+    intro p hp
+    rcases List.mem_cons.mp hp with rfl | hp
+    · cases p with
+      | run g => exact piecesOk_run true g rest hok
+      | cls s => simp only [piecesOk, Bool.and_eq_true] at hok; exact hok.1
+    · exact ih (piecesOk_tail true q rest hok) p hp
+
+theorem piecesToks_ne_nil (ps : List Piece) (hok : piecesOk true ps = true) (hne : piecesText ps ≠ []) :
+    piecesToks true ps ≠ [] := by
+  induction ps with
+  | nil => simp [piecesText] at hne
+  | cons p rest ih =>
+    rw [piecesToks_cons]
+    cases p with
+    | cls s => simp [Piece.toks]
+    | run g =>
+      by_cases hg : g = []
+      · subst hg
+        rw [piecesText_cons] at hne
+        simpa [Piece.toks, simpleToks] using ih (piecesOk_tail true _ rest hok) (by simpa [Piece.text] using hne)
+      · have := simpleToks_ne_nil g (piecesOk_run true g rest hok) hg
+        simp [Piece.toks, this]
+
+theorem piecesToks_simpleC (ps : List Piece) (hok : piecesOk true ps = true) :
+    ∀ t ∈ piecesToks true ps, simpleTokC t = true := by
+  intro t ht
+  rcases piecesToks_kind true ps hok t ht with h | h <;> cases t <;> simp_all [simpleTokC, asciiCls]
+
+theorem piecesToks_slashfree (ci : Bool) (ps : List Piece) (hok : piecesOk true ps = true)
+    (hg : ps.all (Piece.gitOk ci) = true) (h47 : 47 ∉ piecesText ps) :
+    ∀ t ∈ piecesToks true ps, slashFreeTokC ci t = true := by
+  intro t ht
+  simp only [piecesToks, List.mem_flatMap] at ht
+  obtain ⟨p, hp, htp⟩ := ht
+  have hpok := piecesOk_mem ps hok p hp
+  have hpg := List.all_eq_true.mp hg p hp
+  cases p with
+  | run g =>
+    have hg47 : 47 ∉ g := fun h => h47 (by
+      simp only [piecesText, List.mem_flatMap]; exact ⟨_, hp, by simpa [Piece.text] using h⟩)
+    have := slashFree_of_no_slash g hpok hg47 t (by simpa [Piece.toks] using htp)
+    cases t <;> simp_all [slashFreeTokC, slashFreeTok]
+  | cls s =>
+    simp only [Piece.toks, List.mem_singleton] at htp
+    subst htp
+    simp only [Piece.gitOk, Bool.and_eq_true] at hpg
+    simpa [slashFreeTokC] using hpg.2
+
+theorem rgGlobC_matches (ci neg abs dir : Bool) (ps : List Piece) (h : ClassCoreOK ci abs ps)
+    (rel : List Bytes) (hwf : wfRel rel = true) :
+    (rgGlobC ci neg abs dir ps).glob.isMatch (joinPath rel) =
+      (if !abs && !(piecesText ps).contains 47 then GitSpec.wm ci false true (piecesText ps) (rel.getLast?.getD [])
+       else GitSpec.wm ci true true (piecesText ps) (joinPath rel)) := by
+  obtain ⟨c0, tl, hcore, _⟩ := h.head
+  have hne : piecesText ps ≠ [] := by rw [hcore]; simp
+  have hkind := piecesToks_kind true ps h.ok
+  have htsC := piecesToks_simpleC ps h.ok
+  have htne := piecesToks_ne_nil ps h.ok hne
+  have hstar : ∀ t ∈ piecesToks true ps, starTok t = true := by
+    intro t ht
+    rcases hkind t ht with h' | h' <;> simp [starTok, h']
+  have hflat : (piecesToks true ps).flatMap trAtoms = (piecesToks true ps).map trAtom := by
+    generalize piecesToks true ps = ts at hkind
+    induction ts with
+    | nil => rfl
+    | cons t ts ih =>
+      rw [List.flatMap_cons, List.map_cons, ih (fun x hx => hkind x (by simp [hx]))]
+      rcases hkind t (by simp) with h' | h' <;> cases t <;> simp_all [trAtoms, simpleTok, asciiCls]
+  have hA : ∀ r, tokensK (giOpts ci) ((piecesToks true ps).map Token.s) (fun r => r.isEmpty) r =
+      atomsMatch (wmOpts ci true) ((piecesToks true ps).map trAtom) r := by
+    intro r
+    rw [tokensK_eq_atomsMatch_star (giOpts ci) _ hstar r, hflat]
+    rfl
+  unfold wfRel at hwf
+  simp only [Bool.and_eq_true, Bool.not_eq_eq_eq_not, Bool.not_true, List.isEmpty_eq_false_iff,
+    ne_eq, List.all_eq_true] at hwf
+  unfold rgGlobC Glob.isMatch
+  cases hs : (!abs && !(piecesText ps).contains 47)
+  · simp only [Bool.false_eq_true, ↓reduceIte]
+    rw [tokMatch_eq _ _ _ (by
+      intro hc
+      cases hst : piecesToks true ps with
+      | nil => exact htne hst
+      | cons t ts =>
+        rw [hst] at hc
+        simp only [List.map_cons, List.cons.injEq, Token.s.injEq] at hc
+        rcases hkind t (by rw [hst]; simp) with h' | h' <;> rw [hc.1] at h' <;> simp [simpleTok, asciiCls] at h'),
+      hA, wm_pieces ci true ps h.ok h.git]
+  · simp only [↓reduceIte]
+    have h47 : 47 ∉ piecesText ps := by
+      simp only [Bool.and_eq_true, Bool.not_eq_eq_eq_not, Bool.not_true] at hs
+      simpa using hs.2
+    have hfree := piecesToks_slashfree ci ps h.ok h.git h47
+    rw [tokMatch_eq _ _ _ (by
+      intro hc
+      simp only [List.cons.injEq, true_and, List.map_eq_nil_iff] at hc
+      exact htne hc),
+      recPrefix_slashfree (giOpts ci) _ _ hA
+        (fun r hr => atomsMatch_slashfreeC ci _ hfree r hr),
+      lastComp_joinPath_eq rel hwf.1 hwf.2]
+    have hb : 47 ∉ rel.getLast?.getD [] := by
+      cases hl : rel.getLast? with
+      | none => simp
+      | some b =>
+        have hw := hwf.2 b (List.mem_of_getLast? hl)
+        simp only [wfName, Bool.and_eq_true, Bool.not_eq_eq_eq_not, Bool.not_true] at hw
+        simpa using hw.1.1.2
+    rw [← atomsMatch_ls_irrelevantC ci _ htsC _ hb, wm_pieces ci false ps h.ok h.git]
+
+/-- **`addline_wildmatch`** on lines with bracket classes -/
+theorem lineAgree_lineOfC (ci neg abs dir : Bool) (ps : List Piece) (h : ClassCoreOK ci abs ps) :
+    LineAgree ci (lineOf neg abs dir (piecesText ps)) := by
+  intro rel isDir hwf
+  unfold mHit sHit
+  rw [addLine_lineOfC ci neg abs dir ps h, parsePat_lineOf' neg abs dir _ h.head h.last]
+  have hm := rgGlobC_matches ci neg abs dir ps h rel hwf
+  simp only [GiGlob.hits, GitSpec.patMatches, GitSpec.matchPathname_eq_wm _ _ _ h.dpos, hm, joinComps_eq]
+  simp only [rgGlobC]
+  cases (!abs && !(piecesText ps).contains 47) <;> simp [Bool.and_comm]
+
+/-- gitignore lines `[!][/]core[/]` whose core is made of wildcard runs (literals, `?`, single `*`, `\x`, `/`)
+and bracket classes (`[…]`, `[!…]`, `[^…]`, single characters and ranges) that do not accept `/`; under case
+folding: no escapes and no single upper-case letters in classes -/
+def okLineC (ci : Bool) (l : List Nat) : Bool :=
+  let d := decomposeW l
+  let ps := scanPieces true (d.2.2.2.length + 1) d.2.2.2 []
+  lineOf d.1 d.2.1 d.2.2.1 (piecesText ps) == l && okClassCore ci d.2.1 ps
+
+theorem lineAgree_of_okLineC (ci : Bool) (l : List Nat) (h : okLineC ci l = true) : LineAgree ci l := by
+  unfold okLineC at h
+  simp only [Bool.and_eq_true, beq_iff_eq] at h
+  rw [← h.1]
+  exact lineAgree_lineOfC ci _ _ _ _ (classCoreOK_of h.2)
+
+/-- the same followed by unescaped spaces (both sides drop them) -/
+def okLineCB (ci : Bool) (l : List Nat) : Bool :=
+  let l0 := (l.reverse.dropWhile (· == 32)).reverse
+  okLineC ci l0 && (l0 ++ spaces (l.length - l0.length) == l) &&
+  (match l0.getLast? with
+   | some c => !isWs c && c != 92 && c != 32
+   | none => false)
+
+theorem lineAgree_of_okLineCB (ci : Bool) (l : List Nat) (h : okLineCB ci l = true) : LineAgree ci l := by
+  unfold okLineCB at h
+  simp only [Bool.and_eq_true, beq_iff_eq] at h
+  obtain ⟨⟨h1, h2⟩, h3⟩ := h
+  rw [← h2]
+  cases hl : ((l.reverse.dropWhile (· == 32)).reverse).getLast? with
+  | none => simp [hl] at h3
+  | some c =>
+    simp only [hl, Bool.and_eq_true, Bool.not_eq_eq_eq_not, Bool.not_true, bne_iff_ne, ne_eq] at h3
+    exact lineAgree_blank ci _ _ hl h3.1.1 h3.1.2 h3.2 (lineAgree_of_okLineC ci _ h1)
+
+-- `*.[oa]`, `!/b/[a-z]*.l`, `x[]a-]y`;  outside: `a[!b]c` and `[+-0]` (accept `/`), `[A]` under case folding
+example : okLineC false [42, 46, 91, 111, 97, 93] = true ∧
+    okLineC true [33, 47, 98, 47, 91, 97, 45, 122, 93, 42, 46, 108] = true ∧
+    okLineC false [120, 91, 93, 97, 45, 93, 121] = true ∧
+    okLineC false [97, 91, 33, 98, 93, 99] = false ∧
+    okLineC false [91, 43, 45, 48, 93] = false ∧
+    okLineC true [91, 65, 93] = false ∧ okLineC false [91, 65, 93] = true ∧
+    okLineCB false [42, 46, 91, 111, 97, 93, 32, 32] = true := by decide
+
+end RgVerif.Gitignore
